@@ -236,6 +236,13 @@ def e2e_cases(ctx, rng, count):
             now = ast_ + datetime.timedelta(seconds=P // 1024) + datetime.timedelta(seconds=rng.choice([1, 3, 7, 12, 19]),
                                                                                    microseconds=rng.choice([0, 250000, 999999]))
             start = "pow2"
+        young = False
+        if i % 3 == 2 and start != "pow2":
+            # a young stream, still in its first pass through the source media (loop origin 0): everything a
+            # served segment carries must already be right before the first wrap, for every layout
+            ast_ = now.replace(microsecond=0) - datetime.timedelta(seconds=rng.choice([2, 5, 9, 14, 21, 33, 50]))
+            start = "pow2"
+            young = True
         if start == "pow2":
             opts.append("start=" + ast_.strftime("%Y-%m-%dT%H:%M:%SZ"))
         elif start == "explicit":
@@ -261,7 +268,7 @@ def e2e_cases(ctx, rng, count):
                             ("playready__piff", ["0", "1"], .15 if stream == "bbb" else 0)):
             if rng.random() < p_:
                 opts.append(f"{k}={rng.choice(vals)}")
-        if stream == "syn9" and (i // 10) % 2 == 0:
+        if stream == "syn9" and (i // 10) % 2 == 0 and not young:
             # start, depth and leeway come from the stream's stored defaults only
             opts = [o for o in opts if not o.startswith(("start=", "depth=", "leeway=", "mup="))]
             if now.year < 2023:
@@ -274,6 +281,15 @@ def e2e_cases(ctx, rng, count):
             # anything remembered per (track id, time) instead of per file shows up
             other = {"bbb": "tears", "tears": "bbb", "syn1": "syn3", "syn3": "syn1"}[stream]
             out.append((other, url.replace(f"/{stream}/", f"/{other}/", 1), now))
+    # fixed grid: every synthetic layout in its first pass through the media (loop origin 0), by $Number$ and by
+    # $Time$, at two ages – what a served segment carries must not depend on a later wrap having happened
+    for k, stream in enumerate(["syn9", "syn1", "syn8", "syn3", "syn5", "syn2"]):
+        for q in ("", "timeline=1"):
+            for age in (7, 16):
+                now = datetime.datetime(2024, 3, 1 + k, 10, 20, 30, 250000 * (age % 4), tzinfo=datetime.timezone.utc)
+                ast_ = now.replace(microsecond=0) - datetime.timedelta(seconds=age)
+                o = [x for x in (q, "start=" + ast_.strftime("%Y-%m-%dT%H:%M:%SZ"), "depth=60") if x]
+                out.append((stream, f"/dash/live/{stream}/hand_made.mpd?" + "&".join(o), now))
     return out
 
 
